@@ -53,8 +53,8 @@ func (w *toy) Finish(s *Sim) {
 		s.Violate("lost-update", "toy", "val=%d done=%d", w.val, w.done)
 	}
 }
-func (w *toy) Shutdown(s *Sim) { w.cancel() }
-func (w *toy) StateKey() string  { return fmt.Sprint(w.val, w.done, w.started) }
+func (w *toy) Shutdown(s *Sim)  { w.cancel() }
+func (w *toy) StateKey() string { return fmt.Sprint(w.val, w.done, w.started) }
 
 func TestToy(t *testing.T) {
 	mk := func() World { return &toy{} }
